@@ -50,10 +50,10 @@ def pohFn : P String := do
   let h : HP α ← pHP; let q : V2 α ← pV2
   pure s!"ok {if pointOutsideOfHalfplane h q then 1 else 0} {Codec.render (hpSide h q)}"
 
-def ihFn : P String := do
+def ihFn (old : Bool) : P String := do
   let n ← pNat
   let hps : List (HP α) ← pMany n pHP
-  match intersectHalfplanes hps with
+  match (if old then intersectHalfplanes_asIs_before_fix hps else intersectHalfplanes hps) with
   | .ok l => pure s!"ok {l.length} {rV2s l}"
   | .error e => pure (rErrS e)
 
@@ -147,7 +147,8 @@ def dispatch (fn : String) : Option (P String) :=
   | "C15.cross2d" => some (cross2dFn (α := α))
   | "C15.i2h" => some (i2hFn (α := α))
   | "C15.poh" => some (pohFn (α := α))
-  | "C15.ih" => some (ihFn (α := α))
+  | "C15.ih" => some (ihFn (α := α) false)
+  | "C15.ih.before_fix" => some (ihFn (α := α) true)
   | "C15.basis" => some (basisFn (α := α))
   | "C15.mh" => some (mhFn (α := α) false)
   | "C15.mh.before_fix" => some (mhFn (α := α) true)
